@@ -522,7 +522,7 @@ func genCase(rng *vf.RNG, i int) *caseSpec {
 	f := faulty[0]
 	honest := without(all, append(append([]uint32{}, faulty...), p1)...) // honest peers other than the proposer
 
-	scenario := i % 8
+	scenario := i % 10
 	var msgs []msgSpec
 	// how many honest signers (besides the proposer, who is credited) take part
 	around := func(lo, hi int) int {
@@ -611,6 +611,52 @@ func genCase(rng *vf.RNG, i int) *caseSpec {
 		msgs = append(msgs, g.forgedCommit(f, p1, kind, g.pick(without(all, f), rng.Range(1, n-1)), honest))
 		msgs = append(msgs, g.forgedCommit(f, p2, kind, g.pick(without(all, f), rng.Range(1, n-1)), honest))
 		cs.Scenario += ":" + kind
+	case 8: // the same honest peers first endorse and later commit (what every endorser that is also committer does);
+		// their commits carry few or no endorser signatures, so the signature-count fallback decides.  Order is kept.
+		cs.Scenario = "endorse-then-commit-by-the-same-peers"
+		A := g.pick(honest, around(1, Q-2)) // with the proposer credited: at most Q-1 distinct signers
+		if rng.Chance(30) {
+			A = g.pick(honest, around(Q-1, Q))
+		}
+		for _, x := range A {
+			msgs = append(msgs, g.honestEndorse(x, p1, false))
+		}
+		for _, x := range A {
+			var carry []uint32
+			if rng.Chance(30) {
+				carry = g.pick(A, rng.Intn(len(A)+1))
+			}
+			msgs = append(msgs, g.honestCommit(x, p1, false, carry))
+			if rng.Chance(20) {
+				msgs = append(msgs, g.honestCommit(x, p1, false, carry)) // and re-sent
+			}
+		}
+		if rng.Chance(50) { // the faulty peer does the same
+			msgs = append(msgs, g.honestEndorse(f, p1, false), g.honestCommit(f, p1, false, nil))
+		}
+		cs.Msgs = msgs
+		return cs
+	case 9: // honest peers endorsed proposer p1's block; the faulty peer commits ANOTHER proposal (p2's) and
+		// carries, under the same endorser indices, the very signature bytes those peers sent for p1's block
+		cs.Scenario = "forged:replayed-recorded-sigs:of-another-proposal"
+		A := g.pick(without(honest, p2), around(Q-2, Q))
+		for _, x := range A {
+			msgs = append(msgs, g.honestEndorse(x, p1, false))
+		}
+		t2 := tagH(p2, false)
+		m := msgSpec{Kind: "commit", From: f, Proposer: p2, Hash: t2, Sig: sigSpec{Signer: f, Over: t2}, Endorsers: map[uint32]sigSpec{}, Role: "faulty:replayed-recorded-sigs"}
+		for _, x := range A {
+			m.Endorsers[x] = sigSpec{Signer: x, Over: tagH(p1, false)}
+		}
+		if rng.Chance(50) {
+			m.Endorsers[p1] = sigSpec{Signer: p1, Over: tagH(p1, false)} // the proposer's own signature on its block
+		}
+		msgs = append(msgs, m)
+		if rng.Chance(40) {
+			msgs = append(msgs, m)
+		}
+		cs.Msgs = msgs
+		return cs
 	default: // duplicates: messages delivered twice, f re-sends its commit unchanged and with another hash
 		cs.Scenario = "duplicates"
 		A := g.pick(honest, around(Q-4, Q-1))
